@@ -219,7 +219,10 @@ class C03(Prop):
         from vcore import links_gen
         from vcore.links_models import link_models
         from vcore import links_misc
-        return [link_binning, link_models, link_evaluator, links_misc.link_pipeline, links_misc.link_lean, links_misc.link_thorough_binning] + links_gen.links_for("C03")
+        from vcore.links_lex import link_lexer_fns
+        from vcore.links_gram import link_grammar
+        return [link_binning, link_lexer_fns, link_grammar, link_models, link_evaluator, links_misc.link_pipeline, links_misc.link_sly_confinement, links_misc.link_lean,
+                links_misc.link_thorough_binning] + links_gen.links_for("C03")
 
     def canaries(self, ctx):
         t = BIN + "deterministic_choice"
@@ -239,7 +242,11 @@ class C10(Prop):
 
     def links(self, ctx):
         from vcore import links_gen, links_misc
-        return [link_binning, links_misc.link_pipeline, links_misc.link_lean, links_misc.link_thorough_binning] + links_gen.links_for("C10")
+        from vcore.links_lex import link_lexer_fns
+        from vcore.links_gram import link_grammar
+        from vcore.links_models import link_models
+        return [link_binning, link_lexer_fns, link_grammar, link_models, links_misc.link_pipeline, links_misc.link_sly_confinement, links_misc.link_lean,
+                links_misc.link_thorough_binning] + links_gen.links_for("C10")
 
     def canaries(self, ctx):
         t = BIN + "deterministic_choice"
@@ -258,7 +265,7 @@ class C16(Prop):
 
     def links(self, ctx):
         from vcore import links_misc
-        return [link_binning, link_evaluator, links_misc.link_lean, links_misc.link_thorough_binning]
+        return [link_binning, link_evaluator, links_misc.link_sly_confinement, links_misc.link_lean, links_misc.link_thorough_binning]
 
     def canaries(self, ctx):
         t = BIN + "deterministic_choice"
@@ -310,8 +317,10 @@ class C11(Prop):
                 contract_canary("no-checksum-test", t, "if self._checksum != new_checksum:", "if True:", r"ensures\.no-op")]
 
 
-A_SLY_LEX = ("assumed contract of sly.lex.Lexer.tokenize: repeatedly applies the current state's master regex with re.match at the index; calls the token "
-             "function if any; drops ignored names and None results; calls error(t) when nothing matches; push_state/pop_state switch tables")
+A_SLY_LEX = ("sly.lex.Lexer.tokenize is under a STEP contract (no longer assumed): every path of the real loop body equals the documented scanner step (apply the current "
+             "state's master regex with re.match at the index; remap; call the token function if any; drop ignored names and None results; literals; error(t) when nothing "
+             "matches) on every state, and begin/push_state/pop_state are proved to switch the tables; assumed: re.Pattern.match contract, generator protocol (A-gen), "
+             "token functions deterministic with self.index >= 0; the stream is the iteration of the step (induction on iterations, paper step)")
 A_LEX_INDUCTION = ("step equivalence for every remaining text => token-stream equality for every text, by induction on the number of scanner steps (paper step; "
                    "both scanners are memoryless apart from the state)")
 A_RX = ("preferred-match classification (unique / longest / shortest) of each rule under Python's backtracking semantics follows the syntactic criterion stated in rxvc/rx.py; "
@@ -322,7 +331,7 @@ class C08(Prop):
     id, title = "C08", "Comments and whitespace never change meaning"
     min_obligations = 25
     trusted_base = ("rxvc DFA procedure (complete for regular languages)", "Python's re._parser (regex parse trees) and Unicode database of the product interpreter",
-                    "sly.lex.Lexer.tokenize (assumed contract)", "z3 for the token-function VCs")
+                    "sly.lex.Lexer.tokenize (step contract; re.match and the generator protocol assumed)", "z3 for the token-function VCs")
     assumptions = (A_SLY_LEX, A_LEX_INDUCTION, A_RX,
                    "judgment call: an unterminated /* comment extends to the end of the text (as implemented); block comments do not nest (C style)",
                    "grammar actions read only token values (grammar link), so equal token streams give equal ASTs")
@@ -330,18 +339,22 @@ class C08(Prop):
                    "the comment state ends exactly at the first */, never errors; token functions of the comment machinery emit no token and only push/pop the state")
 
     def links(self, ctx):
-        from vcore.links_lex import link_lexer, link_lexer_fns
-        return [link_lexer, link_lexer_fns, link_evaluator] + _misc("link_sly_confinement", "link_pipeline")
+        return _lex() + [link_evaluator] + _misc("link_sly_confinement", "link_pipeline")
 
     def canaries(self, ctx):
         from vcore.links_lex import table_canary, edit_pattern, edit_move_before
-        return [table_canary("greedy-comment-end", edit_pattern("BlockComment", "BLOCK_COMMENT_END", ".*?", ".*"), r"lex:comment~.*END"),
+        from vcore.links_sly import loop_canary
+        return [loop_canary("sly-ignored-tokens-emitted", "lex", "if tok.type in _ignored_tokens:", "if False:", r"sly\.lex\.Lexer\.tokenize~.*refines"),
+                table_canary("greedy-comment-end", edit_pattern("BlockComment", "BLOCK_COMMENT_END", ".*?", ".*"), r"lex:comment~.*END"),
                 table_canary("empty-line-comment-unsupported", edit_pattern("ExperimentLexer", "inline_comment", ".*", ".+"), r"lex:main~.*(inline_comment|line-comment)"),
                 table_canary("ws-before-newline-rule-removed", edit_pattern("ExperimentLexer", "ws", r"\s+", r"\n+"), r"lex:main~.*(whitespace.covered|error)")]
 
 
-A_SLY_YACC = ("assumed contract of sly.yacc: for a grammar without unresolved conflicts parse() returns the value of the actions over the unique parse tree selected by the "
-              "precedence rules, calls self.error at the first syntax error and performs recovery only after error() returns (bounded differential vs the reference parser)")
+A_SLY_YACC = ("sly.yacc.Parser.parse is under a STEP contract (no longer assumed): the real prologue establishes the LR configuration invariant and every path of the real loop "
+              "body equals the textbook LR(1) driver step with default reductions (shift / reduce with the action's value / accept / error() call) on every configuration; "
+              "assumed: LR well-formedness of configurations (from the tables, which the lr:* obligations validate against an independent LALR(1) construction), grammar actions "
+              "deterministic, LR parsing theory (a run of the LR machine on correct tables yields the unique parse selected by the precedence rules; paper step); recovery after "
+              "error() is unreachable because error() raises (discharged separately) and is not covered")
 A_PYDANTIC = "assumed pydantic-v1 validation model (spec/pydantic_model.py), cross-checked against the real classes on an exemplar pool on every run"
 A_SUBST = ("A-subst: a parenthesised expression, a literal token, a non-keyword NAME and a run of complete statement lines at a deeper uniform indentation can replace a placeholder "
            "of the same kind without changing the rest of CPython's parse tree (up to CPython's nesting limits)")
@@ -353,12 +366,14 @@ TB_GEN = ("CPython parser (parse oracle)", "z3 (strings)", "structural executor 
 
 def _lex():
     from vcore.links_lex import link_lexer, link_lexer_fns
-    return [link_lexer, link_lexer_fns]
+    from vcore.links_sly import link_sly_lex_loop
+    return [link_lexer, link_lexer_fns, link_sly_lex_loop]
 
 
 def _gram():
     from vcore.links_gram import link_grammar
-    return [link_grammar]
+    from vcore.links_sly import link_sly_parse_loop
+    return [link_grammar, link_sly_parse_loop]
 
 
 def _models():
@@ -457,7 +472,7 @@ class C01(Prop):
 class C02(Prop):
     id, title = "C02", "Compiled routing equals the DSL's if / else-if / else and operator semantics"
     min_obligations = 150
-    trusted_base = TB_GEN + ("rxvc DFA procedure", "sly.lex / sly.yacc (assumed contracts)", "pydantic (assumed model)")
+    trusted_base = TB_GEN + ("rxvc DFA procedure", "sly.lex / sly.yacc driver loops (step contracts; LR theory, re.match, generator protocol assumed)", "pydantic (assumed model)")
     assumptions = (A_SLY_LEX, A_LEX_INDUCTION, A_RX, A_SLY_YACC, A_PYDANTIC, A_SUBST, A_EXEC, A_ORACLE, A_INDUCTION,
                    "PyEval o D = Route holds by construction of D (Compare/BoolOp/UnaryOp/If nodes with Python's documented semantics); sanity-tested by the bounded pipeline differential")
     explanation = "five links: lexer tables == documented scanner; grammar tables and 43 action bodies == attribute grammar; models keep values; every generator constructor case parses to D(node); exec semantics assumed"
@@ -467,7 +482,9 @@ class C02(Prop):
 
     def canaries(self, ctx):
         from vcore.links_lex import table_canary, edit_move_before
-        return [table_canary("gt-before-ge", edit_move_before("ExperimentLexer", "KW_GE", "KW_GT"), r"lex:main~.*KW_G"),
+        from vcore.links_sly import loop_canary
+        return [loop_canary("sly-goto-from-wrong-state", "parse", "goto[statestack[-1]][pname]", "goto[statestack[-2]][pname]", r"sly\.yacc\.Parser\.parse~.*refines"),
+                table_canary("gt-before-ge", edit_move_before("ExperimentLexer", "KW_GE", "KW_GT"), r"lex:main~.*KW_G"),
                 gen_canary("and-or-swapped", "case BooleanOperatorEnum.AND:\n                return 'and'", "case BooleanOperatorEnum.AND:\n                return 'or'", r"_generate_op/BooleanOperatorEnum.AND|Recursive.AND|injective"),
                 gen_canary("elif-as-if", "{self.indent()}elif {predicate}: ", "{self.indent()}if {predicate}: ", r"_generate_conditionals~?.*ELIF|_generate_conditionals/ELIF"),
                 gen_canary("true-branch-not-indented", "self._indent_depth += 1\n                true_branch_stmt", "self._indent_depth += 0\n                true_branch_stmt", r"_generate_conditionals"),
@@ -494,7 +511,9 @@ class C05(Prop):
         return _lex() + _gram() + _models() + _gen() + [link_evaluator] + _misc("link_pipeline", "link_sly_confinement")
 
     def canaries(self, ctx):
-        return [model_canary("smart-union-removed", "smart_union = True\n\nclass RecursivePredicate", "smart_union = False\n\nclass RecursivePredicate", r"model~.*TerminalPredicate"),
+        from vcore.links_sly import loop_canary
+        return [loop_canary("sly-reduce-value-dropped", "parse", "sym.value = value", "sym.value = None", r"sly\.yacc\.Parser\.parse~.*refines"),
+                model_canary("smart-union-removed", "smart_union = True\n\nclass RecursivePredicate", "smart_union = False\n\nclass RecursivePredicate", r"model~.*TerminalPredicate"),
                 gen_canary("hand-quoting", "return repr(term)", "return f\"'{term}'\"", r"_generate_term/str"),
                 gram_canary("minus-dropped", "return -p.NON_NEG_INTEGER", "return p.NON_NEG_INTEGER", r"action/literal -> MINUS NON_NEG_INTEGER"),
                 contract_canary("string-slice-slip", "pyab_experiment.language.lexer.ExperimentLexer.STRING_LITERAL", "t.value[1:-1]", "t.value[1:]", r"ensures\.value==characters")]
@@ -503,9 +522,9 @@ class C05(Prop):
 class C06(Prop):
     id, title = "C06", "Text outside the grammar is rejected, never silently repaired"
     min_obligations = 60
-    trusted_base = ("rxvc DFA procedure", "z3", "sly.lex / sly.yacc (assumed contracts)")
+    trusted_base = ("rxvc DFA procedure", "z3", "sly.lex / sly.yacc driver loops (step contracts; LR theory, re.match, generator protocol assumed)")
     assumptions = (A_SLY_LEX, A_LEX_INDUCTION, A_RX, A_SLY_YACC,
-                   "with error() raising in both the lexer and the parser and no `error` production, sly's panic-mode recovery is dead code, so a returned AST derives the WHOLE token sequence in G_ref (uses the assumed sly contract)",
+                   "with error() raising in both the lexer and the parser and no `error` production, sly's panic-mode recovery is dead code, so a returned AST derives the WHOLE token sequence in G_ref (uses the parse step contract)",
                    "judgment call: an unterminated /* comment extends to the end of the text")
     explanation = "lexer error-equivalence with the documented scanner + error callbacks proved to raise on every path + production set == G_ref, no conflicts, no error productions + recompile turns a None parse into ParseError"
 
@@ -514,7 +533,11 @@ class C06(Prop):
 
     def canaries(self, ctx):
         from vcore.links_lex import table_canary, edit_pattern
-        return [contract_canary("lexer-error-skips", "pyab_experiment.language.lexer.ExperimentLexer.error", "raise LexError(", "print(", r"ensures\.illegal-character"),
+        from vcore.links_sly import loop_canary
+        return [loop_canary("sly-shift-on-accept-action", "parse", "if t > 0:", "if t >= 0:", r"sly\.yacc\.Parser\.parse~.*refines"),
+                loop_canary("sly-error-token-one-char", "lex", "tok.value = text[index:]", "tok.value = text[index]", r"sly\.lex\.Lexer\.tokenize~.*refines"),
+                loop_canary("sly-begin-keeps-class", "lex", "self.__class__ = cls", "pass", r"sly\.lex\.Lexer~.*\.(begin|push_state|pop_state)/ensures"),
+                contract_canary("lexer-error-skips", "pyab_experiment.language.lexer.ExperimentLexer.error", "raise LexError(", "print(", r"ensures\.illegal-character"),
                 contract_canary("parser-error-prints", "pyab_experiment.language.grammar.ExperimentParser.error", "raise YaccError('Parse error in input. EOF')", "return None", r"ensures\.syntax-error"),
                 table_canary("ignored-rule-swallows-anything", edit_pattern("ExperimentLexer", "ws", r"\s+", "."), r"lex:main~.*(consumes-only-trivia|error)"),
                 contract_canary("none-parse-accepted", "pyab_experiment.experiment_evaluator.ExperimentEvaluator.recompile", "raise ParseError()", "return", r"ensures\.(accepted|switches)"),
@@ -525,7 +548,7 @@ class C06(Prop):
 class C07(Prop):
     id, title = "C07", "Every grammatical experiment compiles and evaluates"
     min_obligations = 120
-    trusted_base = TB_GEN + ("rxvc DFA procedure", "sly (assumed)", "pydantic (assumed model)")
+    trusted_base = TB_GEN + ("rxvc DFA procedure", "sly driver loops (step contracts; LR theory, re.match, generator protocol assumed)", "pydantic (assumed model)")
     assumptions = (A_SLY_LEX, A_RX, A_SLY_YACC, A_PYDANTIC, A_SUBST, A_EXEC, A_ORACLE, A_INDUCTION,
                    "stated precondition: every return statement has a positive total weight (C16 requires the ValueError otherwise), inputs are type-compatible, literals within the stated limits",
                    "chain length and nesting depth are covered by the induction over constructors (depth-parametric blocks), not by a bound; CPython's own nesting limits bound A-subst")
@@ -536,7 +559,9 @@ class C07(Prop):
 
     def canaries(self, ctx):
         from vcore.links_lex import table_canary, edit_pattern
-        return [table_canary("keyword-without-boundary", edit_pattern("ExperimentLexer", "KW_IN", r"in\b", "in"), r"lex:main~.*(KW_IN|ID)\."),
+        from vcore.links_sly import loop_canary
+        return [loop_canary("sly-reduce-pops-one-more", "parse", "del statestack[-plen:]", "del statestack[-plen - 1:]", r"sly\.yacc\.Parser\.parse~.*(refines|invariant)"),
+                table_canary("keyword-without-boundary", edit_pattern("ExperimentLexer", "KW_IN", r"in\b", "in"), r"lex:main~.*(KW_IN|ID)\."),
                 gen_canary("duplicate-parameters", "fn_args = sorted(self._local_vars | self._conditional_ids)", "fn_args = self.local_vars + self.conditional_ids", r"generate/.*splitters=list"),
                 gen_canary("tuple-members-via-str", "members = [str(self._generate_term(member)) for member in term]", "members = [str(member) for member in term]", r"_generate_term/tuple")]
 
@@ -572,7 +597,7 @@ class C12(Prop):
     explanation = "deterministic_proba == HEXVAL(first 8 hex digits of MD5HEX(UTF8(key)))/2^32 (exact formula, codec, slice, divisor) + key template == salt first, sorted distinct splitters, str()"
 
     def links(self, ctx):
-        return [link_binning, link_evaluator] + _lex() + _gen() + _misc("link_pipeline")
+        return [link_binning, link_evaluator] + _lex() + _gen() + _misc("link_pipeline", "link_sly_confinement")
 
     def canaries(self, ctx):
         tp = BIN + "deterministic_proba"
@@ -622,7 +647,7 @@ class C15(Prop):
     explanation = "deterministic_proba has no exceptional path for any str (UTF-8 is total on well-formed str); the key expression is str() of each splitter value; equal printed values give equal keys (congruence lemma)"
 
     def links(self, ctx):
-        return [link_binning] + _lex() + _gen() + _misc("link_pipeline")
+        return [link_binning] + _lex() + _gen() + _misc("link_pipeline", "link_sly_confinement")
 
     def canaries(self, ctx):
         tp = BIN + "deterministic_proba"
